@@ -320,7 +320,10 @@ class ContourDriver(explore.Driver):
 
     def ops(self, st):
         out = [(["get", i], 0) for i in range(4)]
-        out += [(["get", -1], 1), (["slice", 1, 4], 1), (["mutate"], 1)]
+        out += [(["get", -1], 1), (["slice", 1, 4], 1), (["mutate"], 1),
+                # a failing access (index past the end) and the plain
+                # iteration protocol, which ends with exactly that failure
+                (["get", 4], 1), (["iter"], 1)]
         return out
 
     def apply(self, st, op):
@@ -332,7 +335,17 @@ class ContourDriver(explore.Driver):
                 if c.flags.writeable:
                     c += 1
             return ("m",)
-        if op[0] == "get":
+        if op[0] == "get" and op[1] >= len(st.masks):
+            try:
+                st.lcl[op[1]]
+            except Exception as e:
+                return ("exc", type(e).__name__)
+            st.bad = (op, "no exception for an index past the end", None)
+            return ("noexc",)
+        if op[0] == "iter":
+            idx = list(range(len(st.masks)))
+            got = [c for c in st.lcl]
+        elif op[0] == "get":
             idx = [op[1]]
             got = [st.lcl[op[1]]]
         else:
